@@ -693,6 +693,16 @@ def run_case(case):
             have = [(lkey(l), r, fkey(f)) for (l, r, f, nm) in tr]
             if have != want and not any(o[0] == 'gillespie' for o in info['oracle']):
                 info['oracle'].append(('gillespie', f"the dynamics' event rates {have} are not those of the registered events {want}"))
+            prev = st.get('gil')
+            if prev is not None and not any(o[0] == 'gillespie' for o in info['oracle']):
+                # every iteration with a positive total rate advances the clock by its own waiting time, whether or not an event came of it
+                a0 = 0.0
+                for (_, r, _, _) in prev['tr']: a0 += r
+                rs0 = sr.recent[prev['mark']:]
+                if a0 > 0.0 and rs0:
+                    want_t = prev['t'] + (1.0 / a0) * math.log(1.0 / rs0[0])
+                    if t != want_t:
+                        info['oracle'].append(('gillespie', f"the iteration that started at {prev['t']} drew r1={rs0[0]} at total rate {a0}: the next one should start at {want_t}, it starts at {t}"))
             st['gil'] = dict(t=t, tr=[(l, r, getattr(f, '_orig', f), nm) for (l, r, f, nm) in tr], mark=len(sr.recent))
             return tr
 
